@@ -24,6 +24,18 @@ def main(argv):
     if argv[1] == "--replay":
         desc = json.loads(argv[2])
         out = h.replay(tw, desc)
+        # a replay answers "does THIS violation still occur": violations that belong to a listed known finding of the property
+        # (same clause prefix) are reported separately, not as the replayed violation
+        try:
+            kf = json.load(open(os.path.join(VERIF, "known_findings.json")))
+            clauses = [k["twin_match"].get("clause") for k in kf.get("findings", []) if k.get("property") == prop and k.get("status") == "open"
+                       and k.get("twin_match")]
+            known = [v for v in out.get("violations", []) if any(c and v.startswith(c) for c in clauses)]
+            if known:
+                out["known_finding_violations"] = known
+                out["violations"] = [v for v in out["violations"] if v not in known]
+        except Exception:
+            pass
         print(json.dumps(out, indent=1, default=str))
         return 1 if out.get("violations") else 0
     tier, seed = argv[1], int(argv[2])
